@@ -188,3 +188,10 @@ PROBES = {
         "clients": 3,
     }
 }
+
+
+def evidence_extra():
+    return {
+        "exhaustive_subdomain": "calculate_worker_assignments on every layout of <= 3 hosts x 1..4 cores x 1..16 clients (thorough: <= 4 hosts x 1..6 cores x "
+        "1..48 clients); all of them are evaluated before the generated search (count: exhaustive_subdomain_cases)"
+    }
